@@ -32,11 +32,13 @@ func init() {
 		Rule: "universe = skeleton of three top-level declarations (struct type / function containing the site / variable) with 19 comment slots (file header, build directive, package doc, package-line trailer, free-standing between declarations, doc of each declaration, own-line and end-of-line inside each, inside an expression, trailing each declaration, end of file) x every placement of <=2 (thorough <=3) comments of kind {// , /* */, //go: directive} x 7 changes (expression, statement insert, statement with elision, whole function declaration, type declaration, value declaration, expression + import) x sites in {function, function+variable} x {library API, command line}. " +
 			"Oracle: for every declaration whose canonical syntax is unchanged, the list of its comments (doc group, comments inside its extent, comment on its last line) is identical in input and output; same for the comments up to the package clause; the multiset of all output comments is contained in the input's. non-trivial = at least one comment placed and the change applies",
 		Assumptions: []string{"comments separated from declarations by blank lines on both sides belong to no declaration and are only subject to the multiset rule"},
-		Bounds:      func(tier string) map[string]any { return map[string]any{"slots": len(c17SlotOrder), "max_comments": c17Max(tier)} },
-		NewCase:     func() any { return &C17Case{} },
-		Gen:         c17Gen,
-		Setup:       cliSetup,
-		Run:         c17Run,
+		Bounds: func(tier string) map[string]any {
+			return map[string]any{"slots": len(c17SlotOrder), "max_comments": c17Max(tier)}
+		},
+		NewCase: func() any { return &C17Case{} },
+		Gen:     c17Gen,
+		Setup:   cliSetup,
+		Run:     c17Run,
 	})
 }
 
@@ -153,15 +155,15 @@ func c17Single() map[string]*model.Change {
 		"funcdecl-replace": {Kind: "decl", Lines: model.L("-func site() {", "-DOTS_1", "-}", "+var site = 1")},
 		"typedecl-replace": {Kind: "decl", Lines: model.L("-type T struct {", "-DOTS_1", "-}", "+type T = int")},
 		"vardecl-to-const": {Kind: "decl", Meta: xm, Lines: model.L("-var last = x", "+const last = 3")},
-		"expr":         {Kind: "expr", Meta: xm, Lines: model.L("-foo(x)", "+mark(x)")},
-		"noop":         {Kind: "expr", Meta: xm, Lines: model.L("-pre()", "+pre()")},
-		"pkg-rename":   {Kind: "expr", PkgMinus: "p", PkgPlus: "q", Lines: model.L("-pre()", "+pre()")},
-		"stmt-insert":  {Kind: "stmts", Meta: xm, Lines: model.L(" foo(x)", "+added(x)")},
-		"stmt-elision": {Kind: "stmts", Meta: xm, Lines: model.L("-pre()", " DOTS_1", "-mid(x)", "+mark(x)")},
-		"funcdecl":     {Kind: "decl", Lines: model.L("-func site() {", "+func renamed() {", " DOTS_1", " }")},
-		"typedecl":     {Kind: "decl", Lines: model.L(" type T struct {", "-a int", "+a int64", " DOTS_1", " }")},
-		"valuedecl":    {Kind: "decl", Meta: xm, Lines: model.L("-var last = x", "+var last = mark(x)")},
-		"expr+import":  {Kind: "expr", Meta: xm, Imports: []model.Import{{Tag: "+", Path: "new/q"}}, Lines: model.L("-foo(x)", "+q.Mark(x)")},
+		"expr":             {Kind: "expr", Meta: xm, Lines: model.L("-foo(x)", "+mark(x)")},
+		"noop":             {Kind: "expr", Meta: xm, Lines: model.L("-pre()", "+pre()")},
+		"pkg-rename":       {Kind: "expr", PkgMinus: "p", PkgPlus: "q", Lines: model.L("-pre()", "+pre()")},
+		"stmt-insert":      {Kind: "stmts", Meta: xm, Lines: model.L(" foo(x)", "+added(x)")},
+		"stmt-elision":     {Kind: "stmts", Meta: xm, Lines: model.L("-pre()", " DOTS_1", "-mid(x)", "+mark(x)")},
+		"funcdecl":         {Kind: "decl", Lines: model.L("-func site() {", "+func renamed() {", " DOTS_1", " }")},
+		"typedecl":         {Kind: "decl", Lines: model.L(" type T struct {", "-a int", "+a int64", " DOTS_1", " }")},
+		"valuedecl":        {Kind: "decl", Meta: xm, Lines: model.L("-var last = x", "+var last = mark(x)")},
+		"expr+import":      {Kind: "expr", Meta: xm, Imports: []model.Import{{Tag: "+", Path: "new/q"}}, Lines: model.L("-foo(x)", "+q.Mark(x)")},
 	}
 }
 
